@@ -63,6 +63,15 @@ def parse_cmd(c):
         if (m.group(2) == "NEG") != (float(m.group(3)) < 0):
             r["exact"] = False
         return r
+    m = re.fullmatch(r":DIG(-?\d+):PATT:TYPE (DATA|PRBS)", c)
+    if m:
+        return {"verb": "PATT:TYPE", "ch": int(m.group(1)), "val": 1 if m.group(2) == "PRBS" else 0, "exact": True}
+    m = re.fullmatch(r":OUTP(-?\d+) (ON|OFF)", c)
+    if m:
+        return {"verb": "OUTP", "ch": int(m.group(1)), "val": 1 if m.group(2) == "ON" else 0, "exact": True}
+    m = re.fullmatch(r":DIG(-?\d+):PATT:BSH (-?\d+)", c)
+    if m:
+        return {"verb": "PATT:BSH", "ch": int(m.group(1)), "val": int(m.group(2)), "exact": True}
     m = re.fullmatch(r":DIG(-?\d+):PATT:DATA (\d+),(\d+),#(\d)(\d*)", c)
     if m:
         k = int(m.group(4))
@@ -112,6 +121,40 @@ def run(ctx):
                 raised = type(e).__name__
         return [parse_cmd(c) for c in ppg.inst.log], any(issubclass(x.category, UserWarning) for x in w), raised
 
+    def do_flag(ppg, verb, val, sel):
+        ppg.inst.log.clear()
+        raised = False
+        with warnings.catch_warnings(record=True) as w:
+            warnings.simplefilter("always")
+            try:
+                with deadline(30):
+                    if verb == "PATT:TYPE":
+                        ppg.set_mode(["data", "PRBS"][val] if val else rnd.choice(["DATA", "data"]), sel_arg(sel))
+                    elif verb == "OUTP":
+                        (ppg.enable_outputs if val else ppg.disable_outputs)(sel_arg(sel))
+                    else:
+                        ppg.set_bits_shift(val, sel_arg(sel))
+            except Exception as e:
+                raised = type(e).__name__
+        return [parse_cmd(c) for c in ppg.inst.log], any(issubclass(x.category, UserWarning) for x in w), raised
+
+    def do_config(ppg, c, bits, sel, via):
+        o = lambda k: None if c[k] == [] else c[k][0]
+        kw = dict(freq=None if o("freq") is None else o("freq") * 1e8, patt_len=o("plen"), Vout=None if o("amp") is None else o("amp") * 0.1,
+                  offset=None if o("offs") is None else o("offs") * 0.1, bsh=o("bsh"), skew=None if o("skew") is None else o("skew") * 1e-12,
+                  mode=None if o("mode") is None else ["DATA", "PRBS"][o("mode")], order=o("order"),
+                  data=None if o("data") is None else np.array(bits if bits else [0, 1] * 3), CHs=sel_arg(sel))
+        ppg.inst.log.clear()
+        raised = False
+        with warnings.catch_warnings(record=True) as w:
+            warnings.simplefilter("always")
+            try:
+                with deadline(60):
+                    (ppg if via == "call" else ppg.config)(**kw)
+            except Exception as e:
+                raised = type(e).__name__
+        return [parse_cmd(x) for x in ppg.inst.log], any(issubclass(x.category, UserWarning) for x in w), raised
+
     def do_set_data(ppg, bits, addr, sel, form):
         ppg.inst.log.clear()
         data = "".join(map(str, bits)) if form == "str" else (list(bits) if form == "list" else np.array(bits))
@@ -139,7 +182,7 @@ def run(ctx):
 
     # ------------------------------------------------------------------ 1. model checking + replay of every TLC state
     CH, MM = 4, 12
-    r = ctx.tlc("PPGModel", f"SPECIFICATION Spec\nINVARIANT EveryCmdInRange\nINVARIANT ChunkingCorrect\nINVARIANT RoundTrip\nINVARIANT Emit\n"
+    r = ctx.tlc("PPGModel", f"SPECIFICATION Spec\nINVARIANT EveryCmdInRange\nINVARIANT ChunkingCorrect\nINVARIANT RoundTrip\nINVARIANT ConfigIsComposition\nINVARIANT Emit\n"
                 f"CHECK_DEADLOCK FALSE\nCONSTANTS Chunk = {CH}\n MaxMem = {MM}\n MaxOps = 1\n", workers=1, note="setters x request classes x selections; single data ops")
     ctx.tlc("PPGModel", f"SPECIFICATION Spec\nINVARIANT EveryCmdInRange\nINVARIANT ChunkingCorrect\nINVARIANT RoundTrip\n"
             f"CHECK_DEADLOCK FALSE\nCONSTANTS Chunk = {CH}\n MaxMem = {MM}\n MaxOps = {3 if T else 2}\n", note="data histories", timeout=3000)
@@ -161,6 +204,17 @@ def run(ctx):
             selc = "none" if not last["sel"] else (("long" if len(last["sel"]) > 4 else "") + ("oor" if any(s < 1 or s > 4 for s in last["sel"]) else "ok") + str(min(len(last["sel"]), 2)))
             meta.append(("set", last["q"], rc, selc, raised))
             ctx.case(("set", last["q"], rc, selc, last["scalar"]), {"call": last, "emitted": cmds}, nontrivial=bool(cmds))
+        elif last["op"] == "flag":
+            cmds, warned, raised = do_flag(ppg, last["verb"], last["val"], last["sel"])
+            events.append({"kind": "flag", "verb": last["verb"], "val": last["val"], "sel": last["sel"], "cmds": cmds, "warned": warned, "raised": bool(raised)})
+            meta.append(("flag", last["verb"], last["val"], tuple(last["sel"]), raised))
+            ctx.case(("flag", last["verb"], last["val"], len(last["sel"]), any(x < 1 or x > 4 for x in last["sel"])), {"call": last, "emitted": cmds[:2]}, nontrivial=bool(cmds))
+        elif last["op"] == "config":
+            cmds, warned, raised = do_config(ppg, last["c"], last["bits"], last["sel"], rnd.choice(["call", "config"]))
+            events.append({"kind": "config", "c": last["c"], "bits": last["bits"], "sel": last["sel"], "cmds": cmds, "warned": warned, "raised": bool(raised)})
+            given = tuple(k for k in sorted(last["c"]) if last["c"][k] != [])
+            meta.append(("config", given, tuple(last["sel"]), raised))
+            ctx.case(("config", given, len(last["sel"])), {"call": last["c"], "sel": last["sel"], "emitted": len(cmds)}, nontrivial=bool(cmds))
         elif last["op"] == "set_data":
             cmds, warned, raised = do_set_data(ppg, last["bits"], last["addr"], last["sel"], rnd.choice(["str", "list", "ndarray"]))
             events.append({"kind": "set_data", "bits": last["bits"], "addr": last["addr"], "sel": last["sel"], "cmds": cmds,
